@@ -151,6 +151,12 @@ theorem array_length (k : Kind) (e : Endian) (t : Ty) (vs : List Nat) :
       · exact flatMap_length_const _ _ _ (fun a => bytes_length _ _ _)
       · rw [flatMap_length_const _ (sizeofT t) vs (fun a => bytes_length _ _ _)]; exact Nat.le_refl _
 
+/-- `StreamBuffer << T[N]` appends the items' encodings in the order of the array, in every byte order (before commit
+    7c56539 the non-native order reversed the items) -/
+theorem carray_canonical (k : Kind) (e : Endian) (t : Ty) (vs : List Nat) (hv : ∀ v ∈ vs, ValidBits t v) :
+    putCArray k e t vs = vs.flatMap (bytes (resolve e) (sizeofT t)) :=
+  flatMap_congr' _ _ vs (fun v hvm => scalar_canonical k e t v (hv v hvm))
+
 /-- `stream << Array<String>` appends the strings' bytes one after the other, whatever the byte order and the
     class — never the String objects' memory (false in native order before commit 8a61870) -/
 theorem string_array_canonical (k : Kind) (e : Endian) (ss : List (List UInt8)) :
@@ -174,6 +180,9 @@ theorem write_canonical (k : Kind) (e : Endian) (ops : List WOp) :
     | bytes bs => simp [writeAll, writeOp, toItem, encode, ih]
     | cstr bs => simp [writeAll, writeOp, toItem, encode, ih, putCStr]
     | strArray ss => simp [writeAll, writeOp, toItem, encode, ih, string_array_canonical]
+    | carray t vs =>
+      simp only [writeAll, writeOp, List.map_cons, toItem, encode, ih]
+      rw [carray_canonical k e t _ (by intro v hv; obtain ⟨a, _, rfl⟩ := List.mem_map.mp hv; exact norm_valid t a)]
 
 /-- **changing the byte order in mid-stream affects only the values written afterwards**: the bytes of
     the earlier writes are those of the history without the switch, the later ones those of a stream
@@ -347,6 +356,19 @@ theorem read_back (k : Kind) (e : Endian) (ops : List WOp) (rest : List UInt8) :
       simp only []
       rw [ih e]
       simp [Function.comp_def]
+    | carray t vs =>
+      simp only [writeAll, writeOp, mirror, expected, List.append_assoc]
+      have hvalid : ∀ v ∈ vs.map (norm t), ValidBits t v := by
+        intro v hv; obtain ⟨a, _, rfl⟩ := List.mem_map.mp hv; exact norm_valid t a
+      rw [carray_canonical k e t _ hvalid]
+      have h := array_read_back k e t (vs.map (norm t)) ((writeAll k e r).2 ++ rest) hvalid
+      simp only [List.map_map] at h
+      have hm : (vs.map fun _ => ROp.scalar t) = vs.map ((fun _ => ROp.scalar t) ∘ norm t) := by
+        apply List.map_congr_left; intros; rfl
+      rw [hm, h]
+      simp only []
+      rw [ih e]
+      simp [Function.comp_def]
     | bytes bs =>
       simp only [writeAll, writeOp, mirror, expected, readAll, readOp, List.append_assoc]
       rw [List.take_left' rfl, List.drop_left' rfl]
@@ -379,22 +401,15 @@ theorem classes_agree (k k' : Kind) (e : Endian) (t : Ty) (v : Nat) (hv : ValidB
   rw [scalar_canonical k e t v hv, scalar_canonical k' e t v hv]
 
 /-- **length-prefixed strings** (`f << int(s.length()) << s`, then `f >> str`): File returns the string and
-    leaves what followed; Socket (whose `readString` ends with `strlen`) does so for NUL-free strings -/
-theorem string_read_back (k : Kind) (hk : k ≠ .sb) (e : Endian) (s rest : List UInt8) (hl : s.length < 2 ^ 31)
-    (h0 : k = .sock → ∀ c ∈ s, c ≠ 0) :
+    leaves what followed, and so does Socket — any bytes, NULs included (Socket cut the value at the first NUL
+    before commit b125771) -/
+theorem string_read_back (k : Kind) (hk : k ≠ .sb) (e : Endian) (s rest : List UInt8) (hl : s.length < 2 ^ 31) :
     getString k e (putScalar k e .i32 s.length ++ (s ++ rest)) = some (s, rest) := by
   have hv : ValidBits .i32 s.length := by
     simp only [ValidBits, sizeofT]; simp; omega
   have hlen : 4 ≤ (putScalar k e .i32 s.length ++ (s ++ rest)).length := by
     rw [List.length_append, scalar_length]; simp [sizeofT]
   have hg := get_put k e .i32 s.length (s ++ rest) hv
-  have htw : ∀ l : List UInt8, (∀ c ∈ l, c ≠ 0) → l.takeWhile (· != 0) = l := by
-    intro l h
-    induction l with
-    | nil => rfl
-    | cons a t ih =>
-      have ha : a ≠ 0 := h a List.mem_cons_self
-      simp [ha, ih (fun c hc => h c (List.mem_cons_of_mem _ hc))]
   cases k
   case sb => exact absurd rfl hk
   case file =>
@@ -402,7 +417,7 @@ theorem string_read_back (k : Kind) (hk : k ≠ .sb) (e : Endian) (s rest : List
     simp [Nat.not_le.mpr hl]
   case sock =>
     simp only [getString, hg, Nat.not_lt.mpr hlen, if_false]
-    simp [Nat.not_le.mpr hl, htw s (h0 rfl)]
+    simp [Nat.not_le.mpr hl]
 
 /-- **File `>> String` on arbitrary data** (at least the 4 length bytes present): the string returned followed
     by what is left are exactly the bytes after the length — nothing beyond the data is touched, whatever the
